@@ -135,10 +135,12 @@ bool CPyList_SetItem(PyObject *list, CPyTagged index, PyObject *value) {
                 return false;
             }
         }
-        // PyList_SET_ITEM doesn't decref the old element, so we do
-        Py_DECREF(PyList_GET_ITEM(list, n));
+        // PyList_SET_ITEM doesn't decref the old element, so we do. Release it only
+        // after the new item is in place, since this can run arbitrary code.
+        PyObject *old = PyList_GET_ITEM(list, n);
         // N.B: Steals reference
         PyList_SET_ITEM(list, n, value);
+        Py_DECREF(old);
         return true;
     } else {
         PyErr_SetString(PyExc_OverflowError, CPYTHON_LARGE_INT_ERRMSG);
@@ -162,10 +164,12 @@ bool CPyList_SetItemInt64(PyObject *list, int64_t index, PyObject *value) {
             return false;
         }
     }
-    // PyList_SET_ITEM doesn't decref the old element, so we do
-    Py_DECREF(PyList_GET_ITEM(list, index));
+    // PyList_SET_ITEM doesn't decref the old element, so we do. Release it only
+    // after the new item is in place, since this can run arbitrary code.
+    PyObject *old = PyList_GET_ITEM(list, index);
     // N.B: Steals reference
     PyList_SET_ITEM(list, index, value);
+    Py_DECREF(old);
     return true;
 }
 
